@@ -5,6 +5,7 @@ construction (loop trip counts are generator-known, counters are reserved,
 backward GOTO only in counted patterns, recursion depth explicit)."""
 import struct
 
+import copy
 from hypothesis import strategies as st
 
 from . import ast as A
@@ -879,6 +880,16 @@ class Gen:
             lv = self.target('$')
             return A.Assign(lv, self.str_expr(self.p.expr_depth - 1))
         lv = self.target('num')
+        if lv.fields and self.chance(0.35):
+            # copy between two fields of the same record variable
+            v = self.visible_vars().get(lv.name)
+            if v is not None and A.is_rec(v.t):
+                others = [path for path, ft in self.rec_leaves(v.t)
+                          if ft == lv.t and list(path) != list(lv.fields)]
+                if others:
+                    self.note('field_to_field_copy')
+                    return A.Assign(lv, A.LV(lv.name, copy.deepcopy(lv.idx),
+                                             list(self.pick(others)), lv.t))
         t = lv.t if self.chance(0.6) else None
         e = self.num_expr(self.p.expr_depth, t=t)
         if e.t != lv.t:
